@@ -42,7 +42,11 @@ pub fn gen_meta(rng: &mut Rng, img: &HImg, with_icc: bool) -> EncOpts {
                 _ => e.pre_plte.push((*b"iCCP", b"broken\0\0\x01\x02\x03".to_vec())),
             },
             _ => {
-                // both (not allowed by the specification, but decoders see it): kept out of strict runs
+                // both (the specification advises against it and decoders see it all the same; oxipng has a rule of its
+                // own for the pair: the profile goes when the policy lets go of iCCP and keeps sRGB)
+                let k = *rng.choose(&[0u64, 1, 6]);
+                e.pre_plte.push((*b"iCCP", make_iccp(&gen_profile(rng, k))));
+                e.pre_plte.push((*b"sRGB", vec![rng.below(4) as u8]));
             }
         }
     }
@@ -115,15 +119,17 @@ fn judge_c07(case: &Case, inp: &Decoded, out: &Decoded, st: &mut Stats) {
             return prof(e).is_some() && prof(e) == prof(a);
         }
         // "replaced as in C14": only when stripping is enabled and sRGB chunks are kept (the intent byte is C14's)
-        if &e.name == b"iCCP" && &a.name == b"sRGB" { return may_replace_icc; }
+        // (a file that already has an sRGB chunk gets no second one: there the profile is dropped, not replaced)
+        if &e.name == b"iCCP" && &a.name == b"sRGB" { return may_replace_icc && !inp.chunks.iter().any(|c| &c.name == b"sRGB"); }
         false
     };
     // multiset comparison (each expected exactly once, nothing else)
     let mut used = vec![false; actual.len()];
+    let mut matched: Vec<*const RChunk> = vec![];
     for (e, side) in &expected {
         let hit = actual.iter().enumerate().position(|(k, (a, aside))| !used[k] && same(e, a) && aside == side);
         match hit {
-            Some(k) => used[k] = true,
+            Some(k) => { used[k] = true; matched.push(*e as *const RChunk); }
             None => {
                 // an iCCP may be dropped in favour of an existing sRGB (C14)
                 if &e.name == b"iCCP" && may_replace_icc && inp.chunks.iter().any(|c| &c.name == b"sRGB") { continue; }
@@ -143,7 +149,10 @@ fn judge_c07(case: &Case, inp: &Decoded, out: &Decoded, st: &mut Stats) {
         }
     }
     // relative order of the kept chunks
-    let names_e: Vec<&RChunk> = expected.iter().map(|x| x.0).filter(|e| actual.iter().any(|(a, _)| same(e, a))).collect();
+    // (only the chunks that were matched up: an iCCP that legitimately went in favour of an sRGB the file already had is
+    // not part of the order)
+    let is_matched = |e: &RChunk| matched.iter().any(|m| std::ptr::eq(*m, e as *const RChunk));
+    let names_e: Vec<&RChunk> = expected.iter().map(|x| x.0).filter(|e| is_matched(e)).collect();
     let names_a: Vec<&RChunk> = actual.iter().map(|x| x.0).collect();
     let order_ok = names_e.len() == names_a.len() && names_e.iter().zip(&names_a).all(|(e, a)| same(e, a));
     if !order_ok {
@@ -154,7 +163,7 @@ fn judge_c07(case: &Case, inp: &Decoded, out: &Decoded, st: &mut Stats) {
         regroup.extend(pre.iter().filter(|c| !key(c)));
         regroup.extend(pre.iter().filter(|c| key(c)));
         regroup.extend(expected.iter().filter(|x| !x.1).map(|x| x.0));
-        let regroup: Vec<&RChunk> = regroup.into_iter().filter(|e| actual.iter().any(|(a, _)| same(e, a))).collect();
+        let regroup: Vec<&RChunk> = regroup.into_iter().filter(|e| is_matched(e)).collect();
         let explained = regroup.len() == names_a.len() && regroup.iter().zip(&names_a).all(|(e, a)| same(e, a));
         st.fail(if explained { "order-after-plte-group" } else { "order" },
             format!("relative order of kept chunks changed: {:?} -> {:?}", names_e.iter().map(|c| name_str(&c.name)).collect::<Vec<_>>(), names_a.iter().map(|c| name_str(&c.name)).collect::<Vec<_>>()),
